@@ -35,7 +35,7 @@ def setup(extra_modules=()):
 class Exec:
     """One execution: scheduler + chooser + environment."""
 
-    def __init__(self, devs, dev, time_limit=30.0, **envopts):
+    def __init__(self, devs, dev, time_limit=30.0, policy=None, **envopts):
         if not _ready:
             setup()
         self.ch = Chooser(devs)
@@ -44,6 +44,10 @@ class Exec:
         self.s = vsched.Sched(self._choose, time_limit=time_limit)
         self.events = []
         self.frozen = False
+        if policy == 'eager':
+            self.s.eager_start = True
+        elif policy == 'handoff':
+            self.s.handoff = True
 
     def _choose(self, n, label=''):
         if self.frozen:
